@@ -41,6 +41,7 @@ var replacements = map[string]string{
 	"(github.com/EscanBE/evermint/v12/x/evm/types.MsgEthereumTx).AsTransaction": "MsgAsTransaction",
 	"github.com/ethereum/go-ethereum/core/types.Sender":                          "TxSender",
 	"(*github.com/ethereum/go-ethereum/core/types.Transaction).Hash":             "TxHash",
+	"(*github.com/ethereum/go-ethereum/core/types.Transaction).UnmarshalBinary":  "TxUnmarshalBinary",
 
 	// ABI codec and typed-metadata JSON of the custom precompiles (reflection)
 	"(github.com/EscanBE/evermint/v12/x/cpc/abi.CustomPrecompiledContractInfo).UnpackMethodInput": "AbiUnpackMethodInput",
